@@ -294,6 +294,19 @@ def run(repo, res, tier):
                     res.add(Finding("E2", m.rel, q, f"{w.kind} {w.recv}.{w.attr}: {norm(w.stmt)}",
                                     "tree attribute written outside the tree editors", getattr(w.stmt, "lineno", None)))
         # setattr(obj, "_parent", ...) with a dynamic name is covered: collect_writes reports '<dynamic>' setattr
+    # ---- E4: copy() detaches the object for the duration of deepcopy; the parent link must be back on every exit
+    import rules_t1
+    geo = repo.cls("BaseGeo")
+    if "copy" in geo.methods:
+        t1 = rules_t1.analyse(geo.methods["copy"])
+        det = [n for n in ast.walk(geo.methods["copy"]) if isinstance(n, ast.Assign) and any(
+            isinstance(t, ast.Attribute) and t.attr == "_parent" and isinstance(t.value, ast.Name) and t.value.id == "self" for t in n.targets)]
+        ok = (t1 is not None and not t1["bad"]) or (t1 is None and not det)
+        res.ob("E4:BaseGeo.copy:parent link restored on all exits", ok, {"rule": "E4", "exits_examined": t1["exits"] if t1 else 0})
+        if not ok:
+            where = t1["bad"][0][2] if t1 and t1["bad"] else det[0]
+            res.add(Finding("E4", geo.mod.rel, "BaseGeo.copy", "temporary overwrite of _parent", "a failing deepcopy leaves the object without parent while its "
+                            "collection still lists it", where.lineno))
     # ---- E3
     c, add = find_fn(repo, "BaseCollection", "add", False)
     stores, guards = [], []
